@@ -80,6 +80,12 @@ class FuncInfo:
         return "property" in names or any(n.endswith(".setter") or n.endswith(".getter") for n in names)
 
     def defaults(self) -> Dict[str, ast.expr]:
+        d = getattr(self, "_defaults", None)
+        if d is None:
+            d = self._defaults = self._compute_defaults()
+        return d
+
+    def _compute_defaults(self) -> Dict[str, ast.expr]:
         a = self.node.args
         pos = a.posonlyargs + a.args
         out = {}
